@@ -9,6 +9,8 @@ import heaprun
 import lbrun
 
 PROPERTY = 'C04'
+import isolation as _iso
+ISOLATION = [(n, getattr(_iso, n)) for n in ['heap_balancer','aperture_balancer']]      # instance-isolation obligation (harness/isolation.py)
 COMPONENT = 'heap4'
 QUICK = dict(gen=1100)
 THOROUGH = dict(gen=26000)
